@@ -133,10 +133,22 @@ pub fn scenarios(thorough: bool) -> Vec<Scenario> {
         if thorough { 5 } else { 3 },
         &[Op::Resolve(1, 0, 0), Op::Resolve(1, 0, 1), Op::Resolve(0, 0, 0), Op::Unstage(1)],
     ));
+    // a flattened key disappearing / reappearing on one side while the other edits the root
+    v.push(pair_scenario(
+        "pair-rootkinds",
+        if thorough { &[8, 9, 12, 13, 14, 7] } else { &[8, 9, 12, 13, 14] },
+        if thorough { 5 } else { 4 },
+        &[Op::Resolve(0, 0, 0), Op::Resolve(1, 0, 1), Op::Unstage(0)],
+    ));
     // kinds of flattened values on a single replica
     v.push(single_scenario(
         "single-kinds",
-        kind_docs(),
+        {
+            let mut d = kind_docs();
+            d.push(json!({}));
+            d.push(json!({"l♭":[]}));
+            d
+        },
         if thorough { 3 } else { 2 },
         &[Op::Unstage(0), Op::Snapshot(0), Op::Reopen(0)],
     ));
